@@ -36,12 +36,10 @@ pub fn parse_vcf(text: &str) -> Result<Vcf, String> {
     Ok(v)
 }
 
-fn check(c: &Case, ctx: &Ctx) -> Outcome {
-    let m = c04::materialise(c);
-    let dir = ctx.case_dir();
-    let r: Result<Vec<&'static str>, Outcome> = (|| {
-        let aln = c04::run_map(ctx, &dir, c, &m, false)?;
-        let vcf = c04::run_map(ctx, &dir, c, &m, true)?;
+/// the relation between the two formats; returns generator classes
+fn relate(c: &Case, m: &c04::Mat, ctx: &Ctx, dir: &std::path::Path) -> Result<Vec<&'static str>, Outcome> {
+        let aln = c04::run_map(ctx, dir, c, m, false)?;
+        let vcf = c04::run_map(ctx, dir, c, m, true)?;
         if aln.refused != vcf.refused {
             return Err(Outcome::Fail(format!("-f aln {} but -f vcf {}", if aln.refused { "is refused" } else { "succeeds" }, if vcf.refused { "is refused" } else { "succeeds" })));
         }
@@ -137,7 +135,12 @@ fn check(c: &Case, ctx: &Ctx) -> Outcome {
         if c.ambig_mask || c.repeat_mask { cl.push("masked"); }
         if exp.values().any(|(_, col)| col.iter().any(|x| model::sym_is_ambig(*x))) { cl.push("ambiguity_in_column"); }
         Ok(cl)
-    })();
+}
+
+fn check(c: &Case, ctx: &Ctx) -> Outcome {
+    let m = c04::materialise(c);
+    let dir = ctx.case_dir();
+    let r = relate(c, &m, ctx, &dir);
     ctx.done(&dir);
     match r {
         Err(Outcome::Fail(msg)) => Outcome::Fail(format!(
@@ -149,10 +152,25 @@ fn check(c: &Case, ctx: &Ctx) -> Outcome {
     }
 }
 
+fn check_large(lc: &c04::LargeCase, ctx: &Ctx) -> Outcome {
+    let (c, m) = c04::large_materialise(lc);
+    let dir = ctx.case_dir();
+    let r = relate(&c, &m, ctx, &dir);
+    ctx.done(&dir);
+    match r {
+        Err(Outcome::Fail(msg)) => Outcome::Fail(format!("k={} rc={} content_seed={} contig_lengths=[{}, {}] snps={:?} ambig_mask={} repeat_mask={}: {msg}", c.k, c.rc, lc.content_seed, m.reference[0].len(), m.reference[1].len(), lc.snps, c.ambig_mask, c.repeat_mask)),
+        Err(o) => o,
+        Ok(cl) => pass(cl.contains(&"has_records"), key_of(&(c.k, c.rc, lc.content_seed, lc.extra, lc.second_len, &lc.snps)), cl),
+    }
+}
+
 const RULE: &str = "differential between the tool's two output formats on C04's generator (same inputs and flags): parse ska map -f vcf and -f aln; a record at (contig, 1-based pos) iff some sample's aligned character differs from the upper-case reference base; REF = reference base (N if not ACGT); ALT distinct; every genotype decodes through REF/ALT to the aligned character ('.' for '-', N for ambiguity codes); ##contig order/names and sample columns as in the inputs; no duplicate or out-of-order records. Non-trivial: >=1 record.";
 
 fn stages(tier: Tier) -> Vec<Box<dyn Stage>> {
-    vec![gen_stage_show("vcf_vs_aln", RULE, tier.pick(3200, 40_000), 250, c04::case_strategy, check, c04::show)]
+    vec![
+        gen_stage_show("vcf_vs_aln", RULE, tier.pick(3200, 40_000), 250, c04::case_strategy, check, c04::show),
+        gen_stage_show("large_reference", "same relation on references longer than 65536 bases (random first contig of 65300-67300 bases + a short second contig, two samples with substitutions concentrated around concatenated position 65536 and in the second contig; content a pure function of content_seed). Non-trivial: >= 1 record.", tier.pick(24, 400), 10, c04::large_strategy, check_large, |c| serde_json::json!({"first_contig": 65_300 + c.extra as usize, "second_contig": c.second_len, "snps": c.snps.len()})),
+    ]
 }
 
 pub fn def() -> PropDef {
